@@ -47,6 +47,8 @@ type c16Case struct {
 	Keys    []string `json:"keys,omitempty"`
 	Backend string   `json:"backend,omitempty"`
 	Feat    []string `json:"features,omitempty"`
+	Outside  []fsEnt `json:"outside,omitempty"`   // files next to the store directory (targets of symlinked chunks)
+	CancelAt int     `json:"cancel_at,omitempty"` // cancel the context at the k-th callback (local, SFTP) / request (S3)
 	DelFail int      `json:"fail_delete_no,omitempty"` // S3: refuse the n-th DELETE request
 	DelHow  string   `json:"fail_delete_how,omitempty"`
 	What    string   `json:"what,omitempty"`
@@ -102,6 +104,7 @@ func isTmpName(rel string) bool { return strings.HasPrefix(filepath.Base(rel), "
 // ---------- generator ----------
 
 type c16Gen struct {
+	outside []fsEnt
 	ents []fsEnt
 	ids  []string // universe
 	feat map[string]bool
@@ -203,7 +206,33 @@ func c16GenTree(rng *vh.Rand) *c16Gen {
 	for j := 0; j < nx; j++ {
 		c := pick()
 		unc := rng.Bool()
-		switch rng.Intn(17) {
+		switch rng.Intn(18) {
+		case 17: // the chunk's canonical file is a symbolic link: to a file in the store, next to it, or nowhere
+			name := c.id[:4] + "/" + c.id + ext(unc)
+			content := obj(c, unc)
+			if rng.Chance(1, 3) {
+				content = rng.Bytes(1 + rng.Intn(30)) // the linked object is damaged
+				g.feat["symlink-chunk-invalid"] = true
+			}
+			if g.seen[name] { // replace the plain file of that slot
+				for k := range g.ents {
+					if g.ents[k].Path == name {
+						g.ents = append(g.ents[:k], g.ents[k+1:]...)
+						break
+					}
+				}
+				delete(g.seen, name)
+			}
+			switch rng.Intn(3) {
+			case 0:
+				g.add("objects/"+c.id[:8], "f", content, "")
+				g.add(name, "l", []byte("../objects/"+c.id[:8]), "symlink-chunk-inside")
+			case 1:
+				g.outside = append(g.outside, fsEnt{Path: c.id[:8], Kind: "f", Data: content})
+				g.add(name, "l", []byte("../../o/"+c.id[:8]), "symlink-chunk-outside")
+			default:
+				g.add(name, "l", []byte("../../o/missing-"+c.id[:6]), "symlink-chunk-dangling")
+			}
 		case 16: // the all-zero id with an undecodable or empty object
 			z := strings.Repeat("0", 64)
 			if rng.Bool() {
@@ -295,6 +324,27 @@ func lsFeats(m map[string]bool) []string {
 	return out
 }
 
+// c16Outside (re)creates the directory next to the stores that holds the targets of symlinked chunks.
+func c16Outside(a vh.Args, c *c16Case) (string, error) {
+	od, err := lsFreshDir(a.Work, "o")
+	if err != nil {
+		return "", err
+	}
+	return od, writeTree(od, c.Outside)
+}
+
+// resolved content of a canonical entry: the file's bytes, or (symbolic link) the bytes Open would read
+func c16Content(dir string, e fsEnt) ([]byte, bool) {
+	switch e.Kind {
+	case "f":
+		return e.Data, true
+	case "l":
+		b, err := os.ReadFile(filepath.Join(dir, e.Path))
+		return b, err == nil
+	}
+	return nil, false
+}
+
 // ---------- prune ----------
 
 func c16RunPrune(a vh.Args, c *c16Case, dir string) (string, error) {
@@ -338,7 +388,11 @@ func c16RunPrune(a vh.Args, c *c16Case, dir string) (string, error) {
 	if err != nil {
 		return "", err
 	}
-	perr := s.Prune(context.Background(), keep)
+	var ctx context.Context = context.Background()
+	if c.CancelAt > 0 {
+		ctx = &countCtx{Context: context.Background(), at: int32(c.CancelAt)}
+	}
+	perr := s.Prune(ctx, keep)
 	cl := lsErrClass(perr)
 	if cl == "ok" {
 		cl = "nil"
@@ -364,15 +418,26 @@ func c16Prune(a vh.Args, o *vh.Oracle, r *vh.Result, c *c16Case) error {
 	if err := writeTree(dir, c.Tree); err != nil {
 		return err
 	}
+	od, err := c16Outside(a, c)
+	if err != nil {
+		return err
+	}
 	before, _ := snapshotTree(dir)
 	res, err := c16RunPrune(a, c, dir)
 	if err != nil {
 		return err
 	}
 	after, _ := snapshotTree(dir)
+	if oa, _ := snapshotTree(od); diffTrees(c.Outside, oa) != "" {
+		c.What = "prune changed files OUTSIDE the store directory: " + diffTrees(c.Outside, oa)
+		r.Fail("predicate", "prune/touches-outside", c.What, c)
+	}
+	if c.CancelAt > 0 {
+		r.Dist("prune-cancelled:result=" + res)
+	}
 	nontriv := false
 	for _, e := range before {
-		if id, ok := canonicalID(e.Path, c.Unc); ok && e.Kind == "f" && !lsInSet(c.Keep, id) {
+		if id, ok := canonicalID(e.Path, c.Unc); ok && e.Kind != "d" && !lsInSet(c.Keep, id) {
 			nontriv = true
 		}
 	}
@@ -427,14 +492,18 @@ func c16Prune(a vh.Args, o *vh.Oracle, r *vh.Result, c *c16Case) error {
 	// complete
 	if res == "nil" {
 		for _, e := range after {
-			if e.Kind != "f" {
+			if e.Kind == "d" {
 				continue
 			}
 			if isTmpName(e.Path) {
 				fail("prune/leaves-temp-file", "prune returned nil but left the temp file "+e.Path)
 			}
 			if id, ok := canonicalID(e.Path, c.Unc); ok && !lsInSet(c.Keep, id) {
-				fail("prune/leaves-unreferenced", "prune returned nil but left the unreferenced chunk "+e.Path)
+				cls := "prune/leaves-unreferenced"
+				if c.CancelAt > 0 {
+					cls = "prune/cancelled-reports-success"
+				}
+				fail(cls, "prune returned nil but left the unreferenced chunk "+e.Path)
 			}
 		}
 	}
@@ -445,7 +514,10 @@ func c16Prune(a vh.Args, o *vh.Oracle, r *vh.Result, c *c16Case) error {
 	if c.Backend == "sftp-model" {
 		cmd = "c16.sftpprune"
 	}
-	ans, err := o.Call(cmd, lsB01(c.Unc), lsHx([]byte(dir)), strings.Join(c.Keep, ","), encodeTree("s", before))
+	if c.CancelAt > 0 {
+		return nil // the model places a cancellation by path, the harness by callback count: predicate only
+	}
+	ans, err := o.Call(cmd, lsB01(c.Unc), lsHx([]byte(dir)), strings.Join(c.Keep, ","), encodeTreeOutside("s", before, c.Outside))
 	if err != nil {
 		return err
 	}
@@ -485,7 +557,17 @@ func c16Verify(a vh.Args, o *vh.Oracle, r *vh.Result, c *c16Case) error {
 	if err := writeTree(dir, c.Tree); err != nil {
 		return err
 	}
+	od, err := c16Outside(a, c)
+	if err != nil {
+		return err
+	}
 	before, _ := snapshotTree(dir)
+	resolved := map[string][]byte{} // canonical path -> what Open reads there
+	for _, e := range before {
+		if b, ok := c16Content(dir, e); ok {
+			resolved[e.Path] = b
+		}
+	}
 	var out string
 	res := "nil"
 	if c.CLI {
@@ -532,9 +614,15 @@ func c16Verify(a vh.Args, o *vh.Oracle, r *vh.Result, c *c16Case) error {
 	expect := map[string]string{} // id -> path
 	for _, e := range before {
 		// whatever the store's SkipVerify option says: Verify is the check
-		if id, ok := canonicalID(e.Path, c.Unc); ok && e.Kind == "f" && !validObject(c.Unc, e.Data, id) {
-			expect[id] = e.Path
+		if id, ok := canonicalID(e.Path, c.Unc); ok {
+			if b, readable := resolved[e.Path]; readable && !validObject(c.Unc, b, id) {
+				expect[id] = e.Path
+			}
 		}
+	}
+	if oa, _ := snapshotTree(od); diffTrees(c.Outside, oa) != "" {
+		c.What = "verify changed files OUTSIDE the store directory: " + diffTrees(c.Outside, oa)
+		r.Fail("predicate", "verify/touches-outside", c.What, c)
 	}
 	r.Dist(fmt.Sprintf("verify-options:unc=%v/skip=%v/cli=%v", c.Unc, c.Skip, c.CLI))
 	// canonical names occupied by a directory, and ids that also occur under a non-canonical accepted
@@ -606,7 +694,7 @@ func c16Verify(a vh.Args, o *vh.Oracle, r *vh.Result, c *c16Case) error {
 			if o.Kind != e.Kind || !bytes.Equal(o.Data, e.Data) {
 				fail("verify/changes-file", "verify changed "+e.Path)
 			}
-			if id, isC := canonicalID(e.Path, c.Unc); isC && c.Repair && res == "nil" && e.Kind == "f" {
+			if id, isC := canonicalID(e.Path, c.Unc); isC && c.Repair && res == "nil" && e.Kind != "d" {
 				if _, bad := expect[id]; bad && id != strings.Repeat("0", 64) {
 					fail("verify/repair-leaves-invalid", "verify -r left the invalid chunk "+e.Path)
 				}
@@ -625,7 +713,7 @@ func c16Verify(a vh.Args, o *vh.Oracle, r *vh.Result, c *c16Case) error {
 		return nil
 	}
 	cmp := func(mode string) (string, error) {
-		ans, err := o.Call("c16.verify", mode, lsB01(c.Unc), lsB01(c.Repair), lsHx([]byte(dir)), encodeTree("s", before), decompTable(before), lsB01(c.Skip))
+		ans, err := o.Call("c16.verify", mode, lsB01(c.Unc), lsB01(c.Repair), lsHx([]byte(dir)), encodeTreeOutside("s", before, c.Outside), decompTable(append(append([]fsEnt{}, before...), c.Outside...)), lsB01(c.Skip))
 		if err != nil {
 			return "", err
 		}
@@ -743,7 +831,10 @@ func runC16(a vh.Args, o *vh.Oracle, r *vh.Result) error {
 			sort.Slice(g.ents, func(i, j int) bool { return g.ents[i].Path < g.ents[j].Path })
 		}
 		keep, tag := c16Keep(rng, g.ids)
-		c := &c16Case{Kind: "prune", Unc: rng.Bool(), Tree: g.ents, Keep: keep, KeepTag: tag, Feat: lsFeats(g.feat)}
+		c := &c16Case{Kind: "prune", Unc: rng.Bool(), Tree: g.ents, Keep: keep, KeepTag: tag, Feat: lsFeats(g.feat), Outside: g.outside}
+		if k%5 == 4 { // the context is cancelled at the j-th walk callback
+			c.CancelAt = 1 + rng.Intn(len(g.ents)+2)
+		}
 		if os.Getenv("VH_DESYNC") != "" && (k >= 8 && k < 14 || thorough && k%20 == 0) {
 			c.CLI = true
 		}
@@ -753,7 +844,7 @@ func runC16(a vh.Args, o *vh.Oracle, r *vh.Result) error {
 		if err := c16Prune(a, o, r, c); err != nil {
 			return err
 		}
-		v := &c16Case{Kind: "verify", Unc: rng.Bool(), Tree: g.ents, Repair: rng.Bool(), N: []int{1, 2, 3, 4, 8}[rng.Intn(5)], Feat: lsFeats(g.feat), Skip: rng.Chance(1, 5)}
+		v := &c16Case{Kind: "verify", Unc: rng.Bool(), Tree: g.ents, Repair: rng.Bool(), N: []int{1, 2, 3, 4, 8}[rng.Intn(5)], Feat: lsFeats(g.feat), Skip: rng.Chance(1, 5), Outside: g.outside}
 		// the CLI (config-file store options) in every tier: all four Uncompressed x SkipVerify combinations first
 		if os.Getenv("VH_DESYNC") != "" && (k < 8 || thorough && k%20 == 1) {
 			v.CLI = true
